@@ -10,6 +10,8 @@ and the obvious list operations (`specStep`).
 import NumbersModel.Lemmas.Grid
 import NumbersModel.Lemmas.Cache
 import NumbersModel.Lemmas.TablePipeline
+import NumbersModel.Lemmas.TrEdit
+import NumbersModel.Lemmas.TrCache
 namespace NumbersModel.Props.C03
 open NumbersModel NumbersModel.Grid
 
@@ -217,3 +219,101 @@ example : Cache.cacheKey [12, -3, 0] = "12.-3.0".toList := by decide
 example : (Cache.memoCalls (fun a => a.sum) [] [[1, 2], [1, 2], [12, 0]]).1 = [3, 3, 12] := by decide
 
 end NumbersModel.Props.C03
+
+/-! ## The argument checks translated from the Python source
+
+`Gen/TrEdit.lean` is regenerated by `harness/py2lean.py` from `Table.add_row` / `add_column` / `delete_row` /
+`delete_column` in the working tree on every check run (everything before the first mutation of the table).
+`Lemmas/TrEdit.lean` proves that each model operation is the translated prefix followed by the rest of the operation. -/
+namespace NumbersModel.Props.C03.Src
+open NumbersModel NumbersModel.Grid NumbersModel.Gen.T NumbersModel.Translated
+
+variable {α : Type}
+
+/-- what the translated checks of `add_row` accept: a non-negative count and no start row or one inside the table; the
+    result is the row the new rows go to.  Everything else is an IndexError, raised before the table is touched. -/
+theorem src_add_row_args (rows n : Int) (start : Option Int) :
+    add_row_args rows n start =
+      if 0 ≤ n ∧ (∀ st, start = some st → 0 ≤ st ∧ st < rows) then .ok (start.getD rows) else .error .IndexError := by
+  unfold add_row_args
+  cases start with
+  | none => by_cases hn : n < 0 <;> simp [hn, pure, Except.pure, throw, throwThe, MonadExceptOf.throw] <;> omega
+  | some st =>
+    by_cases h1 : st < 0 <;> by_cases h2 : st ≥ rows <;> by_cases hn : n < 0 <;>
+      simp [h1, h2, hn, pure, Except.pure, bind, Except.bind, throw, throwThe, MonadExceptOf.throw] <;> omega
+
+theorem src_add_column_args (cols n : Int) (start : Option Int) :
+    add_column_args cols n start =
+      if 0 ≤ n ∧ (∀ st, start = some st → 0 ≤ st ∧ st < cols) then .ok (start.getD cols) else .error .IndexError := by
+  unfold add_column_args
+  cases start with
+  | none => by_cases hn : n < 0 <;> simp [hn, pure, Except.pure, throw, throwThe, MonadExceptOf.throw] <;> omega
+  | some st =>
+    by_cases h1 : st < 0 <;> by_cases h2 : st ≥ cols <;> by_cases hn : n < 0 <;>
+      simp [h1, h2, hn, pure, Except.pure, bind, Except.bind, throw, throwThe, MonadExceptOf.throw] <;> omega
+
+/-- what the translated checks of `delete_row` accept: `0 ≤ n < rows` and, with a start row, `0 ≤ start` and
+    `start + n ≤ rows` (at least one row always remains). -/
+theorem src_delete_row_args (rows n : Int) (start : Option Int) :
+    delete_row_args rows n start =
+      if 0 ≤ n ∧ n < rows ∧ (∀ st, start = some st → 0 ≤ st ∧ st < rows ∧ st + n ≤ rows) then .ok () else .error .IndexError := by
+  unfold delete_row_args
+  cases start with
+  | none =>
+    by_cases h1 : n < 0 <;> by_cases h2 : n ≥ rows <;>
+      simp [h1, h2, pure, Except.pure, throw, throwThe, MonadExceptOf.throw] <;> omega
+  | some st =>
+    by_cases h1 : st < 0 <;> by_cases h2 : st ≥ rows <;> by_cases h3 : n < 0 <;> by_cases h4 : n ≥ rows <;>
+      by_cases h5 : st + n > rows <;>
+      simp [h1, h2, h3, h4, h5, pure, Except.pure, throw, throwThe, MonadExceptOf.throw] <;> omega
+
+theorem src_delete_column_args (cols n : Int) (start : Option Int) :
+    delete_column_args cols n start =
+      if 0 ≤ n ∧ n < cols ∧ (∀ st, start = some st → 0 ≤ st ∧ st < cols ∧ st + n ≤ cols) then .ok () else .error .IndexError := by
+  unfold delete_column_args
+  cases start with
+  | none =>
+    by_cases h1 : n < 0 <;> by_cases h2 : n ≥ cols <;>
+      simp [h1, h2, pure, Except.pure, throw, throwThe, MonadExceptOf.throw] <;> omega
+  | some st =>
+    by_cases h1 : st < 0 <;> by_cases h2 : st ≥ cols <;> by_cases h3 : n < 0 <;> by_cases h4 : n ≥ cols <;>
+      by_cases h5 : st + n > cols <;>
+      simp [h1, h2, h3, h4, h5, pure, Except.pure, throw, throwThe, MonadExceptOf.throw] <;> omega
+
+/-- an edit whose arguments the translated checks refuse leaves the model's operation with exactly that error: nothing of
+    the table has been touched when it is raised (the four model operations *are* prefix-then-body). -/
+theorem src_edit_refused_early (empty : α) (s : State α) (n : Int) (start : Option Int) (d : Option α) (e : PyExc) :
+    (add_row_args s.numRows n start = .error e → addRow empty s n start d = .error e) ∧
+    (add_column_args s.numCols n start = .error e → addCol empty s n start d = .error e) ∧
+    (delete_row_args s.numRows n start = .error e → delRow s n start = .error e) ∧
+    (delete_column_args s.numCols n start = .error e → delCol s n start = .error e) := by
+  refine ⟨?_, ?_, ?_, ?_⟩
+  · intro h; unfold addRow; rw [add_row_args_eq_model, h]; rfl
+  · intro h; unfold addCol; rw [add_column_args_eq_model, h]; rfl
+  · intro h; rw [delete_row_args_eq_model, h]; rfl
+  · intro h; rw [delete_column_args_eq_model, h]; rfl
+
+/-- the memoising wrapper translated from `numbers_cache.py` (`inner_multi_args`; the instance's `_cache[method]` dict is
+    threaded as a state variable): one call returns what the model's `memoCall` returns and leaves the same store content —
+    so `memo_transparent` is a statement about the wrapper as the source has it. -/
+theorem src_memo_call {β} (f : List Int → β) (store : Cache.Store β) (args : List Int) :
+    ∃ st', cache_inner_multi_args f (args.length : Int) store args = .ok ((Cache.memoCall f store args).1, st') ∧
+      ∀ k, Cache.lookup st' k = Cache.lookup (Cache.memoCall f store args).2 k :=
+  cache_inner_eq_model f store args
+
+/-- a second call with the same arguments does not call the method again: it returns the stored value and leaves the store
+    as it is. -/
+theorem src_memo_hit {β} (f g : List Int → β) (store : Cache.Store β) (args : List Int) (v : β)
+    (h : Cache.lookup store (Cache.cacheKey args) = some v) :
+    ∃ st', cache_inner_multi_args g (args.length : Int) store args = .ok (v, st') ∧ ∀ k, Cache.lookup st' k = Cache.lookup store k := by
+  obtain ⟨st', h1, h2⟩ := cache_inner_eq_model g store args
+  have hm : Cache.memoCall g store args = (v, store) := by simp [Cache.memoCall, h]
+  rw [hm] at h1 h2
+  exact ⟨st', h1, h2⟩
+
+example : (cache_inner_multi_args (fun a => a.sum) 2 [] [1, 2]) = .ok (3, [("1.2".toList, 3)]) := by decide +kernel
+
+example : add_row_args 3 2 (some 1) = .ok 1 ∧ add_row_args 3 2 none = .ok 3 ∧ add_row_args 3 (-1) none = .error .IndexError
+    ∧ delete_row_args 3 3 none = .error .IndexError ∧ delete_row_args 3 2 (some 1) = .ok () := by decide
+
+end NumbersModel.Props.C03.Src
